@@ -1297,3 +1297,34 @@ def adaptor_chain(body, pv, op):
                 nxt = o
         cur = nxt
     return chain
+
+
+HARD_TRUNCATIONS = {"take", "skip", "step_by", "take_while", "skip_while", "nth", "map_while", "last", "chunks", "windows", "truncate", "pop", "split_off", "drain"}
+
+
+def hard_truncations(prog, body, allow=()):
+    """hard truncating adaptors (take/skip/step_by/...) in the iteration pipelines of a body and its closures:
+    list of (body, term).  `allow` = method names that are part of the function's contract (e.g. the name truncation)."""
+    out = []
+    for fb in prog.family(body):
+        for bi, t in fb.calls():
+            if t.callee.method in HARD_TRUNCATIONS and t.callee.method not in allow:
+                da = t.callee.def_args or ""
+                if t.callee.trait == "std::iter::Iterator" or "Iterator" in da or "Vec" in da or "SmallVec" in da or "slice" in da:
+                    out.append((fb, t))
+    return out
+
+
+def check_complete_iteration(ck, rule, prog, body_ids, what, allow=()):
+    """every listed function processes ALL elements of what it iterates: no hard truncation in its pipelines"""
+    n = 0
+    for bid in body_ids:
+        b = prog.body(bid) if isinstance(bid, str) else bid
+        if b is None:
+            continue
+        n += 1
+        cut = hard_truncations(prog, b, allow)
+        ck.ob(rule, "complete-iteration/" + b.short, not cut,
+              ("%s iterates %s completely" % (b.short, what)) if not cut else
+              ("%s drops elements with `%s` (line %s): part of %s is silently not processed" % (b.short, cut[0][1].callee.method, cut[0][1].line, what)), where=b.where(cut[0][1].line if cut else None))
+    return n
